@@ -42,7 +42,7 @@ theorem mulT3_act (a : Iso3 K) (c x : V3 K) :
   refine ⟨?_, ?_, ?_⟩ <;> ring
 
 /-- `position_at_time`: rotation by `M` about the world-space centre, then the drift `M.t = linvel·t` -/
-theorem positionAt3_act (m : Motion3 K) (M : Iso3 K) (p : V3 K) (hs : Unit3 m.start) (hM : Unit3 M) :
+theorem positionAt3_act (m : C07.Motion3 K) (M : Iso3 K) (p : V3 K) (hs : Unit3 m.start) (hM : Unit3 M) :
     letI := fieldNum K sq
     (m.positionAt M).act p =
       (M.rot ((m.start.act p).sub (m.start.act m.localCenter))).add ((m.start.act m.localCenter).add M.t) := by
@@ -50,7 +50,7 @@ theorem positionAt3_act (m : Motion3 K) (M : Iso3 K) (p : V3 K) (hs : Unit3 m.st
   have hA : Unit3 (tMul3 (m.start.act m.localCenter) M) := hM
   have hB : Unit3 (tMul3 (m.start.act m.localCenter).neg m.start) := hs
   have h := (iso3_mul_act sq (tMul3 (m.start.act m.localCenter) M) (tMul3 (m.start.act m.localCenter).neg m.start) p hA hB).1
-  simp only [Motion3.positionAt]
+  simp only [C07.Motion3.positionAt]
   rw [h, tMul3_act, tMul3_act]
   congr 2
   simp only [Iso3.act, V3.add, V3.sub, V3.neg, V3.mk.injEq]
@@ -58,7 +58,7 @@ theorem positionAt3_act (m : Motion3 K) (M : Iso3 K) (p : V3 K) (hs : Unit3 m.st
 
 /-- **the ball motion follows the sphere centre (3-D)**: for every exponential `M`, the pose of
 `m.prepend_translation(c)` is the pose of `m` after the local translation by `c` -/
-theorem prependTranslation3_tracks (m : Motion3 K) (M : Iso3 K) (c p : V3 K) (hs : Unit3 m.start) (hM : Unit3 M) :
+theorem prependTranslation3_tracks (m : C07.Motion3 K) (M : Iso3 K) (c p : V3 K) (hs : Unit3 m.start) (hM : Unit3 M) :
     letI := fieldNum K sq
     ((m.prependTranslation c).positionAt M).act p = (m.positionAt M).act (p.add c) := by
   letI := fieldNum K sq
@@ -75,7 +75,7 @@ private theorem v3_add_zero (c : V3 K) :
   simp only [V3.add, V3.zero]; cases c; simp
 
 /-- the centre of the moving ball is the image of the local sphere centre under the shape's own pose -/
-theorem ballCentre3 (m : Motion3 K) (M : Iso3 K) (c : V3 K) (hs : Unit3 m.start) (hM : Unit3 M) :
+theorem ballCentre3 (m : C07.Motion3 K) (M : Iso3 K) (c : V3 K) (hs : Unit3 m.start) (hM : Unit3 M) :
     letI := fieldNum K sq
     ((m.prependTranslation c).positionAt M).act V3.zero = (m.positionAt M).act c := by
   letI := fieldNum K sq
@@ -84,7 +84,7 @@ theorem ballCentre3 (m : Motion3 K) (M : Iso3 K) (c : V3 K) (hs : Unit3 m.start)
   exact h
 
 /-- poses of a nonlinear motion preserve distances -/
-theorem positionAt3_isometry (m : Motion3 K) (M : Iso3 K) (x y : V3 K) (hs : Unit3 m.start) (hM : Unit3 M) :
+theorem positionAt3_isometry (m : C07.Motion3 K) (M : Iso3 K) (x y : V3 K) (hs : Unit3 m.start) (hM : Unit3 M) :
     letI := fieldNum K sq
     (((m.positionAt M).act x).sub ((m.positionAt M).act y)).normSq = (x.sub y).normSq := by
   letI := fieldNum K sq
@@ -108,7 +108,7 @@ theorem positionAt3_isometry (m : Motion3 K) (M : Iso3 K) (x y : V3 K) (hs : Uni
 
 /-- **the moving ball contains the moving shape (3-D)**: a point `x` of the shape within `r` of the local sphere centre `c`
 stays within `r` of the centre of the ball that moves with `m.prepend_translation(c)`, at every time -/
-theorem ball_contains3 (m : Motion3 K) (M : Iso3 K) (c x : V3 K) (r2 : K) (hs : Unit3 m.start) (hM : Unit3 M)
+theorem ball_contains3 (m : C07.Motion3 K) (M : Iso3 K) (c x : V3 K) (r2 : K) (hs : Unit3 m.start) (hM : Unit3 M)
     (hx : letI := fieldNum K sq; (x.sub c).normSq ≤ r2) :
     letI := fieldNum K sq
     (((m.positionAt M).act x).sub (((m.prependTranslation c).positionAt M).act V3.zero)).normSq ≤ r2 := by
@@ -121,26 +121,26 @@ private theorem tMul2_act (v : V2 K) (a : Iso2 K) (x : V2 K) :
     letI := fieldNum K sq
     (tMul2 v a).act x = (a.rot x).add (v.add a.t) := rfl
 
-theorem positionAt2_act (m : Motion2 K) (M : Iso2 K) (p : V2 K) :
+theorem positionAt2_act (m : C07.Motion2 K) (M : Iso2 K) (p : V2 K) :
     letI := fieldNum K sq
     (m.positionAt M).act p =
       (M.rot ((m.start.act p).sub (m.start.act m.localCenter))).add ((m.start.act m.localCenter).add M.t) := by
   letI := fieldNum K sq
   have h := (iso2_mul_act sq (tMul2 (m.start.act m.localCenter) M) (tMul2 (m.start.act m.localCenter).neg m.start) p).1
-  simp only [Motion2.positionAt]
+  simp only [C07.Motion2.positionAt]
   rw [h, tMul2_act, tMul2_act]
   congr 2
   simp only [Iso2.act, V2.add, V2.sub, V2.neg, V2.mk.injEq]
   refine ⟨?_, ?_⟩ <;> ring
 
 /-- **the ball motion follows the sphere centre (2-D)** -/
-theorem prependTranslation2_tracks (m : Motion2 K) (M : Iso2 K) (c p : V2 K) (hs : Unit2 m.start) :
+theorem prependTranslation2_tracks (m : C07.Motion2 K) (M : Iso2 K) (c p : V2 K) (hs : Unit2 m.start) :
     letI := fieldNum K sq
     ((m.prependTranslation c).positionAt M).act p = (m.positionAt M).act (p.add c) := by
   letI := fieldNum K sq
   rw [positionAt2_act sq _ M p, positionAt2_act sq m M (p.add c)]
   have e1 : (m.prependTranslation c).start.act p = m.start.act (p.add c) := by
-    simp only [Motion2.prependTranslation, Motion2.setStart, mulT2, Iso2.act, Iso2.rot, V2.add, V2.mk.injEq]
+    simp only [C07.Motion2.prependTranslation, C07.Motion2.setStart, mulT2, Iso2.act, Iso2.rot, V2.add, V2.mk.injEq]
     refine ⟨?_, ?_⟩ <;> ring
   have hs' : Unit2 (mulT2 m.start c) := hs
   have e2 : (m.prependTranslation c).start.act (m.prependTranslation c).localCenter = m.start.act m.localCenter :=
@@ -148,7 +148,7 @@ theorem prependTranslation2_tracks (m : Motion2 K) (M : Iso2 K) (c p : V2 K) (hs
   rw [e1, e2]
 
 /-- poses of a 2-D nonlinear motion preserve distances -/
-theorem positionAt2_isometry (m : Motion2 K) (M : Iso2 K) (x y : V2 K) (hs : Unit2 m.start) (hM : Unit2 M) :
+theorem positionAt2_isometry (m : C07.Motion2 K) (M : Iso2 K) (x y : V2 K) (hs : Unit2 m.start) (hM : Unit2 M) :
     letI := fieldNum K sq
     (((m.positionAt M).act x).sub ((m.positionAt M).act y)).normSq = (x.sub y).normSq := by
   letI := fieldNum K sq
@@ -161,7 +161,7 @@ theorem positionAt2_isometry (m : Motion2 K) (M : Iso2 K) (x y : V2 K) (hs : Uni
     ((x1 - y1) * (x1 - y1) + (x2 - y2) * (x2 - y2)) * hM
 
 /-- **the moving ball contains the moving shape (2-D)** -/
-theorem ball_contains2 (m : Motion2 K) (M : Iso2 K) (c x : V2 K) (r2 : K) (hs : Unit2 m.start) (hM : Unit2 M)
+theorem ball_contains2 (m : C07.Motion2 K) (M : Iso2 K) (c x : V2 K) (r2 : K) (hs : Unit2 m.start) (hM : Unit2 M)
     (hx : letI := fieldNum K sq; (x.sub c).normSq ≤ r2) :
     letI := fieldNum K sq
     (((m.positionAt M).act x).sub (((m.prependTranslation c).positionAt M).act V2.zero)).normSq ≤ r2 := by
@@ -178,12 +178,12 @@ shape's pose maps `c` to `(0, 1)`; the ball built with `prepend_translation` is 
 `append_translation` is centred at `(1, 0)` – at distance `√2` from where it should be. -/
 example :
     letI := fieldNum ℚ id
-    let m : Motion2 ℚ := ⟨⟨0, 1, ⟨0, 0⟩⟩, ⟨0, 0⟩, ⟨0, 0⟩, 0⟩
+    let m : C07.Motion2 ℚ := ⟨⟨0, 1, ⟨0, 0⟩⟩, ⟨0, 0⟩, ⟨0, 0⟩, 0⟩
     let M : Iso2 ℚ := ⟨1, 0, ⟨0, 0⟩⟩
     (m.positionAt M).act ⟨1, 0⟩ = ⟨0, 1⟩ ∧
     ((m.prependTranslation ⟨1, 0⟩).positionAt M).act ⟨0, 0⟩ = ⟨0, 1⟩ ∧
     ((m.appendTranslation ⟨1, 0⟩).positionAt M).act ⟨0, 0⟩ = ⟨1, 0⟩ := by
-  simp only [Motion2.positionAt, Motion2.prependTranslation, Motion2.appendTranslation, Motion2.setStart, tMul2, mulT2,
+  simp only [C07.Motion2.positionAt, C07.Motion2.prependTranslation, C07.Motion2.appendTranslation, C07.Motion2.setStart, tMul2, mulT2,
     Iso2.mul, Iso2.act, Iso2.rot, Iso2.invAct, Iso2.invRot, V2.add, V2.sub, V2.neg, V2.mk.injEq]
   norm_num
 
